@@ -90,6 +90,7 @@ def run_trading(rnd, S, cfgk, intensity=1.0, script=None, analyser=False):
             def mk(name):
                 def h(context, event):
                     tr.events.append((name, {"cal": env.calendar_dt, "trd": env.trading_dt, "accounts": accounts_snap(context), "pf": pf_snap(context),
+                                             "daily_pnl": {t: float(a.daily_pnl) for t, a in context.portfolio.accounts.items()} if name == "POST_SETTLEMENT" else {},
                                              "open": [o.order_id for o in env.broker.get_open_orders()]}))
                 return h
             subscribe_event(getattr(EVENT, name), mk(name))
@@ -126,6 +127,7 @@ def run_trading(rnd, S, cfgk, intensity=1.0, script=None, analyser=False):
             r = srnd.random()
             call = {"phase": phase, "when": env.calendar_dt, "api": None, "args": None, "orders": [], "exc": None}
             before = accounts_snap(context)
+            pf_before = pf_snap(context)
             open_before = [o.order_id for o in env.broker.get_open_orders()]
             res = None
             try:
@@ -227,6 +229,7 @@ def run_trading(rnd, S, cfgk, intensity=1.0, script=None, analyser=False):
             call["before"] = before
             call["after"] = accounts_snap(context)
             call["pf_after"] = pf_snap(context)
+            call["pf_before"] = pf_before
             tr.calls.append(call)
             tr.events.append(("CALL", call))
             tr.stats["calls"] += 1
